@@ -242,10 +242,21 @@ def run(ctx: Ctx) -> None:
     ctx.rule("R18.3", "preprocessor hook: one call, (filename, content) unmodified, result unmodified is the content that is lexed; file opened only if content is None", minimum=3)
     preads = option_reads(pm, "preprocessor")
     calls = []
+    hook_locals: Dict[str, Set[str]] = {}
     for f, x in preads:
         par = mod.parent.get(x)
         if isinstance(par, ast.Call) and par.func is x:
             calls.append((f, par))
+        # the hook read into a local (`hook = options.preprocessor if options else None`)
+        st_ = par
+        while st_ is not None and not isinstance(st_, ast.stmt):
+            st_ = mod.parent.get(st_)
+        if isinstance(st_, ast.Assign) and len(st_.targets) == 1 and isinstance(st_.targets[0], ast.Name) and not any(isinstance(c_, ast.Call) for c_ in ast.walk(st_.value)):
+            hook_locals.setdefault(f, set()).add(st_.targets[0].id)
+    for f, names_ in hook_locals.items():
+        for c_ in walk_local(pm.fn(f)):
+            if isinstance(c_, ast.Call) and isinstance(c_.func, ast.Name) and c_.func.id in names_:
+                calls.append((f, c_))
     ok = len(calls) == 1 and calls[0][0] == "__init__"
     ctx.ob("R18.3", "parser:CxxParser|single call site of the preprocessor hook in __init__", ok, msg=f"the hook is called from {[f for f, _ in calls]}", node=calls[0][1] if calls else pm.cls, mod=mod, nontrivial=False)
     if ok:
@@ -274,8 +285,10 @@ def run(ctx: Ctx) -> None:
             why.append(f"the hook's return value is not stored unmodified as the content (`{short(st)}`): parsing does not proceed exactly as if the return value had been supplied")
         # guards: only `options and options.preprocessor is not None`
         doms = [d for d, lab in cfg.control_deps(n)] if n is not None else []
+        hl = hook_locals.get("__init__", set())
         for d in doms:
-            if "preprocessor is not None" not in norm(d.cond):
+            t_ = norm(d.cond)
+            if not ("preprocessor is not None" in t_ or any(t_ == f"{h} is not None" or t_ == h for h in hl)):
                 good = False
                 why.append(f"the hook call also depends on `{short(d.cond)}`")
         # the content given to LexerTokenStream on the hook path is the hook's result
